@@ -116,6 +116,13 @@ func c20Stream(o *out, r *rng, thorough bool) {
 			}
 			work := filepath.Dir(root)
 			src := filepath.Join(root, dir)
+			// the directory as shell completion spells it: with a trailing separator (or two) - the image is the same
+			switch ti % 3 {
+			case 1:
+				src += "/"
+			case 2:
+				src += "//"
+			}
 			for _, target := range []string{"new", "stdout", "existing-file", "existing-dir"} {
 				args := []string{"make-iso", src}
 				outPath := filepath.Join(work, "out.iso")
@@ -284,6 +291,86 @@ func c20Stream(o *out, r *rng, thorough bool) {
 			}
 		})
 	}
+	// the window between the existence test and the open of the output file
+	{
+		d, err := os.MkdirTemp("", "vracesrc-")
+		if err == nil {
+			os.Mkdir(filepath.Join(d, "SRC"), 0o755)
+			os.WriteFile(filepath.Join(d, "SRC", "f.bin"), []byte("content"), 0o644)
+			os.WriteFile(filepath.Join(d, "img.iso"), make([]byte, 4096), 0o644)
+			os.WriteFile(filepath.Join(d, "img.dkey"), []byte("00112233445566778899aabbccddeeff"), 0o644)
+			c20Race(o, []string{"make-iso", filepath.Join(d, "SRC")}, "make-iso")
+			if thorough {
+				c20Race(o, []string{"decrypt", "redump", filepath.Join(d, "img.iso"), filepath.Join(d, "img.dkey")}, "decrypt-redump")
+				c20Race(o, []string{"decrypt", "3k3y", filepath.Join(d, "img.iso")}, "decrypt-3k3y")
+			}
+			os.RemoveAll(d)
+		}
+	}
+}
+
+// c20Race: the output path is created by somebody else BETWEEN the tool's existence test and its open
+// (the window is held open by delaying the return of the tool's stat of that path with strace's syscall
+// injection): the tool must fail and the newcomer's bytes must survive.
+func c20Race(o *out, tool []string, key string) {
+	strace, err := exec.LookPath("strace")
+	if err != nil {
+		o.count("race-probe:skipped-no-strace")
+		return
+	}
+	work, err := os.MkdirTemp("", "vrace-")
+	if err != nil {
+		return
+	}
+	defer os.RemoveAll(work)
+	outPath := filepath.Join(work, "out.bin")
+	args := append([]string{"-f", "-o", os.DevNull, "-P", outPath, "-e", "trace=newfstatat,stat,statx,lstat",
+		"-e", "inject=newfstatat,stat,statx,lstat:delay_exit=1200000", binPath()}, tool...)
+	args = append(args, outPath)
+	cmd := exec.Command(strace, args...)
+	cmd.Dir = work
+	var stderr bytes.Buffer
+	cmd.Stderr = &stderr
+	if err := cmd.Start(); err != nil {
+		o.count("race-probe:skipped-strace-unusable")
+		return
+	}
+	time.Sleep(500 * time.Millisecond)
+	precious := []byte("PRECIOUS DATA OF SOMEBODY ELSE - must survive")
+	f, err := os.OpenFile(outPath, os.O_WRONLY|os.O_CREATE|os.O_EXCL, 0o644)
+	if err != nil {
+		cmd.Wait()
+		o.count("race-probe:window-missed")
+		return
+	}
+	f.Write(precious)
+	f.Close()
+	done := make(chan error, 1)
+	go func() { done <- cmd.Wait() }()
+	var toolErr error
+	select {
+	case toolErr = <-done:
+	case <-time.After(20 * time.Second):
+		cmd.Process.Kill()
+		toolErr = <-done
+	}
+	got, _ := os.ReadFile(outPath)
+	obs := "race=intact"
+	if !bytes.Equal(got, precious) {
+		obs = "race=CLOBBERED"
+	}
+	if toolErr == nil {
+		obs += " exit=ok"
+	} else {
+		obs += " exit=error"
+	}
+	if bytes.Equal(got, precious) && toolErr != nil && !bytes.Contains(stderr.Bytes(), []byte("exists")) {
+		// strace refused to run, or the tool failed for another reason: nothing was shown
+		o.count("race-probe:inconclusive")
+		return
+	}
+	o.count("race-probe:" + key)
+	o.emit("c20race "+key, obs, "race=intact exit=error", "race:"+key)
 }
 
 func init() {
